@@ -35,7 +35,11 @@ type Analyzed struct {
 var errorLevel = int(diagnostic.DiagnosticLevelError)
 
 func diagString(d diagnostic.Diagnostic) string {
-	return fmt.Sprintf("%d|%s|%s:%d:%d-%d:%d", d.Level, d.Message, d.Span.Filename, d.Span.Start.Line, d.Span.Start.Column, d.Span.End.Line, d.Span.End.Column)
+	s := fmt.Sprintf("%d|%s|%s:%d:%d-%d:%d", d.Level, d.Message, d.Span.Filename, d.Span.Start.Line, d.Span.Start.Column, d.Span.End.Line, d.Span.End.Column)
+	for _, n := range d.Notes { // the notes are part of what the user is shown
+		s += "|note: " + strings.ReplaceAll(n, "\n", " ")
+	}
+	return s
 }
 
 // Analyze runs the real lexer, parser and analyzer against the simulated host.
